@@ -26,7 +26,9 @@ def _make(desc: dict, dtype=torch.float64):
     name = desc["name"]
     def vec(key):
         v = desc.get(key)
-        return None if v is None else torch.tensor(v, dtype=dtype)
+        # a preference vector may legitimately be given in another dtype than the matrices (UPGrad / DualProj accept it)
+        vdt = DT[desc["pref_dtype"]] if key == "pref" and desc.get("pref_dtype") else dtype
+        return None if v is None else torch.tensor(v, dtype=vdt)
     if name == "Constant":
         return A.Constant(vec("weights"))
     if name == "Mean":
@@ -95,3 +97,14 @@ def random_linear_or_ordered(rng, m):
     if r < 0.94 and m >= 3:
         return {"name": "TrimmedMean", "b": 1}
     return {"name": "Constant", "weights": random_weights(rng, m)}
+
+
+_SHARED = {}
+
+
+def shared(desc: dict, dtype=torch.float64):
+    """One long-lived instance per configuration (as in a training loop): successive calls see different row counts, shapes, dtypes."""
+    key = (repr(sorted(desc.items(), key=lambda kv: kv[0])), str(dtype))
+    if key not in _SHARED:
+        _SHARED[key] = make(desc, dtype)
+    return _SHARED[key]
